@@ -201,7 +201,11 @@ class C15(Prop):
         "reasonableRF_shape_partial",
         "sq_text_digital_text", "sq_digitize_rejects", "sq_digital_text_digital", "sq_revcomp_spec", "sq_revcomp_twice", "textCompl_involutive",
         "sq_revcomp_text_status", "sq_convertDegen2X_spec",
-        "columnSubset_msa_ss_pairs", "minimGaps_digital_nucleic", "addGS_spec", "appendGR_spec", "appendGC_new")]
+        "columnSubset_msa_ss_pairs", "minimGaps_digital_nucleic", "addGS_spec", "appendGR_spec", "appendGC_new",
+        # round 4
+        "compaction_pairs_exact", "compaction_entry_points", "sequenceSubset_markup_exact",
+        "ct2wuss_total", "wuss_ct_wuss_ct_total", "removeBroken_total",
+        "ct2wuss_ok_iff", "ct2wuss_ok_of_few_pk", "ct2wuss_fails_needs_27", "wuss_few_pk_roundtrip")]
     claimed = True
     technique = ("Lean 4 proof about an executable hand model of esl_msa.c / esl_wuss.c (in-place compaction loop = filter-by-mask on every aligned field, well-formedness invariants, "
                  "tag-table rebuild of SequenceSubset, mode-conversion and reverse-complement identities over alphabet tables regenerated from the tree, 27-stack WUSS reader = 27 Dyck recognisers, "
@@ -681,9 +685,13 @@ class C15(Prop):
         return None
 
     def needs_many_letters(self, ss):
-        """True when the structure has at least 26 pseudoknotted pairs (the only way esl_ct2wuss can run out of letters)"""
-        p = wuss_pairs(ss) or set()
-        return sum(1 for (i, j) in p if any(a < i < b < j or i < a < j < b for (a, b) in p)) >= 26
+        """True when the structure has at least 27 pseudoknotted pairs (i, j) - pairs with some pair (a, b), a < i < b < j -
+        which by theorem ct2wuss_fails_needs_27 is necessary for esl_ct2wuss to run out of letters"""
+        return self.many_pk_pairs(wuss_pairs(ss) or set())
+
+    @staticmethod
+    def many_pk_pairs(p):
+        return sum(1 for (i, j) in p if any(a < i < b < j for (a, b) in p)) >= 27
 
     def check_wuss(self, name, kv, l):
         ss = unhx(kv.get("ss", "~"))
@@ -718,10 +726,10 @@ class C15(Prop):
             mask = kv["mask"] if kv["mask"] != "-" else ""
             parts = l.split()
             if spec is None: return None if parts[0] == "esyntax" else Failure("monitor", "RemoveBrokenBasepairsFromSS accepted bad SS %r" % ss)
-            if parts[0:2] == ["einval", "exception"] and self.needs_many_letters(ss): return None     # documented limit of esl_ct2wuss (A..Z)
+            want = set((i, j) for i, j in spec if mask[i] == "1" and mask[j] == "1")
+            if parts[0:2] == ["einval", "exception"] and self.many_pk_pairs(want): return None     # documented limit of esl_ct2wuss (A..Z), on the RETAINED pairs
             if parts[0] != "ok": return Failure("monitor", "RemoveBrokenBasepairsFromSS failed on balanced SS %r: %s" % (ss, l[:60]))
             got = wuss_pairs(unhx(parts[-1][3:]))
-            want = set((i, j) for i, j in spec if mask[i] == "1" and mask[j] == "1")
             if got != want: return Failure("monitor", "after RemoveBrokenBasepairsFromSS the pairs are not the original pairs with both partners kept (ss %r mask %s)" % (ss, mask))
         elif name == "wussrev":
             if l.startswith("ok ss="):
